@@ -58,8 +58,34 @@ def rule_xconf(ctx):
                 ctx.ob("XCONF", "[%s vs %s] body %s is identical" % (a, b, k), False, fn=ka[k], site=fn_site(fa, ka[k]), detail=xconf.first_diff(x, y))
         ctx.ob("XCONF", "[%s vs %s] all %d shared bodies are structurally identical" % (a, b, len(shared)), ndiff == 0, detail="%d shared, %d differ; only in %s: %d; only in %s: %d" % (len(shared), ndiff, a, len(only_a), b, len(only_b)))
         pred, what = GATED[(a, b)]
+        # a private helper that exists only under the larger feature set and is called from gated items only is gated with
+        # them (a helper extracted from `impl Purl`, say): no body the two configurations share can reach it
+        callers = {}
+        for k2, b2 in fa.bodies.items():
+            root2 = b2.j.get("root", k2) if b2.kind == "closure" else k2
+            for _, t2 in b2.calls(include_cleanup=True):
+                if "path" in t2["callee"]:
+                    from purlsa.core import callee_name as _cn
+                    callers.setdefault(_cn(t2["callee"]), set()).add(xconf.map_key(root2))
+        gated_set = set(k for k in only_a if pred(k))
+        changed = True
+        while changed:
+            changed = False
+            for k in only_a:
+                if k in gated_set:
+                    continue
+                f_ = fa.fns.get(ka[k], {})
+                root = fa.bodies[ka[k]].j.get("root") if fa.bodies[ka[k]].kind == "closure" else None
+                if root is not None and xconf.map_key(root) in gated_set:
+                    gated_set.add(k)
+                    changed = True
+                    continue
+                cs = callers.get(ka[k], set())
+                if f_ and not f_.get("exported") and "impl_trait_def" not in f_ and cs and cs <= gated_set:
+                    gated_set.add(k)
+                    changed = True
         for k in only_a:
-            ctx.ob("XCONF", "[%s vs %s] body only under %s is a gated item: %s" % (a, b, a, k), pred(k), fn=ka[k], site=fn_site(fa, ka[k]), detail=what, nontrivial=False)
+            ctx.ob("XCONF", "[%s vs %s] body only under %s is a gated item: %s" % (a, b, a, k), k in gated_set, fn=ka[k], site=fn_site(fa, ka[k]), detail=what + (" (private helper called from gated items only)" if not pred(k) and k in gated_set else ""), nontrivial=False)
         for k in only_b:
             ctx.ob("XCONF", "[%s vs %s] no body exists only under the smaller feature set: %s" % (a, b, k), False, fn=kb[k], site=fn_site(fb, kb[k]), detail="present under %s but not under %s" % (b, a))
         # constants
